@@ -8,13 +8,14 @@ import vlib
 from vlib import VI, VB, VS, VE
 from translate.pyfun import Untranslatable
 import regen_c20
+import c20_ext
 
 PID = "C20"
 THEOREMS = ["align_least", "align_rejects", "check_range_truthful", "swap16_involution", "swap32_involution",
             "bytes_cnt_width", "bytes_cnt_negative_rejected", "bytes_cnt_explicit", "value_to_bytes_roundtrip",
             "int_to_bytes_roundtrip", "align_block_only_appends", "extend_block_only_appends",
             "reverse_bytes_in_longs_involution", "change_endianness_involution", "swap_bytes_involution",
-            ]
+            ] + c20_ext.NEW_THEOREMS
 ALPHABET = "0123456789abfxoul_+-. g"
 FN = {1: "align", 2: "check_range", 3: "swap16", 4: "get_bytes_cnt_of_int", 5: "value_to_int", 6: "value_to_bytes(int)",
       7: "value_to_bytes(str)", 8: "align_block", 9: "extend_block", 10: "swap32", 11: "reverse_bytes_in_longs",
@@ -95,8 +96,9 @@ def oracle(case, res):
         want = grammar_value(a[0]) if all(ord(c) < 128 for c in a[0]) else None
         got = val if ok else None
         if want != got:
-            s = a[0].strip().lower()
-            sig = "dup-binary-prefix" if (s.startswith("0b0b") and want is None) else "grammar"
+            # known finding C20-F1 is keyed on the OUTCOME: the accepted value is int(rest, 2) of the doubled-prefix text
+            f1 = c20_ext.f1_value(a[0], grammar_value)
+            sig = "dup-binary-prefix" if (want is None and f1 is not None and got == f1) else "grammar"
             return (f"{name}:{sig}", f"value_to_int({a[0]!r}) = {got}, documented grammar gives {want}")
     elif fn == 6:
         v, a2n, bc, big = a
@@ -162,6 +164,15 @@ def oracle(case, res):
     return None
 
 
+def full_oracle(case, res):
+    """Extension oracles first (c20_ext: value_to_bytes(str), BcdVersion3, get_block, pattern padding, reverse_bits
+    outside the bit range); the base oracle is consulted unless the extension subsumes the function's contract."""
+    handled, verdict = c20_ext.ext_oracle(case, res, grammar_value)
+    if verdict:
+        return verdict
+    return None if handled else oracle(case, res)
+
+
 # ------------------------------------------------------------------ case generation
 def gen_cases(tier, rng):
     cases = {}
@@ -224,6 +235,7 @@ def gen_cases(tier, rng):
     vers += ["".join(rng.choice(al2) for _ in range(rng.randrange(1, 9))) for _ in range(1500 if thorough else 300)]
     vers += [f"{rng.randrange(0, 10000)}.{rng.randrange(0, 10000)}.{rng.randrange(0, 10000)}" for _ in range(200)]
     cases["BcdVersion3.from_str -> str"] = ([[15, VS(s)] for s in vers], False)
+    cases.update(c20_ext.ext_streams(tier, rng))
     return cases
 
 
@@ -255,7 +267,7 @@ def run(tier):
         rep.obligation("translate:spsdk/utils/misc.py->Gen/GenMisc.v", False, repr(ex))
     # (P) proofs
     model_ok, _ = vlib.coq_make(["Model/MiscModel.vo"])
-    vlib.check_theorems(rep, PID, THEOREMS, ["Proofs/MiscProofs.vo"])
+    vlib.check_theorems(rep, PID, THEOREMS, ["Proofs/MiscProofs.vo"] + c20_ext.NEW_DEPS)
     if tier == "thorough":
         vlib.coqchk(rep, PID, THEOREMS)
     vlib.audit(rep)
@@ -274,7 +286,7 @@ def run(tier):
         else:
             impl_res.append(vlib.vj(r))
     for c, r in zip(flat, impl_res):
-        o = oracle(c, r)
+        o = full_oracle(c, r)
         if o:
             rep.failing(o[0], "implementation violates the C20 contract: " + o[1],
                         {"kind": "impl-oracle", "function": FN[c[0]], "case": [c[0]] + [vlib.jv(a) for a in c[1:]],
@@ -288,7 +300,7 @@ def run(tier):
                     ndis += 1
                     if ndis <= 5:
                         vlib.log(f"  disagreement {FN[c[0]]} {c[1:]}: impl {ri} model {rm}")
-                    o = oracle(c, ri)
+                    o = full_oracle(c, ri)
                     if not o:
                         rep.broken.append(f"correspondence:{FN[c[0]]}") if f"correspondence:{FN[c[0]]}" not in rep.broken else None
             rep.obligation("correspondence:model=implementation on all cases", ndis == 0,
@@ -297,6 +309,17 @@ def run(tier):
             rep.obligation("correspondence:model evaluation", False, repr(ex))
     else:
         rep.obligation("correspondence:model builds", False, "Model/MiscModel.vo did not build")
+    # (S) the Coq grammar SPECIFICATION (doc_parse, proved equivalent to the inductive number_grammar) computes the same
+    #     partial function as the Python oracle grammar on every exhaustive / structured string
+    try:
+        spec_strs = [c[1][1] for nm in ("value_to_int exhaustive strings", "value_to_int structured long strings")
+                     for c in streams[nm][0] if all(ord(ch) < 128 for ch in c[1][1])]
+        bad = c20_ext.spec_agreement(spec_strs, grammar_value)
+        rep.obligation("spec-correspondence:Coq number_grammar (doc_parse) = Python oracle grammar", not bad,
+                       f"{len(bad)} disagreements, first {bad[:3]!r}" if bad else "")
+        rep.coverage["spec_grammar_strings"] = len(spec_strs)
+    except Exception as ex:  # noqa
+        rep.obligation("spec-correspondence:Coq number_grammar evaluation", False, repr(ex))
     # coverage accounting
     for name, (cs, exhaustive) in streams.items():
         idx = [i for i, o in enumerate(owner) if o == name]
